@@ -11,8 +11,9 @@ REGEXES = ["a", "^a", "b$", "^$", "(?i)A", ".", "[0-9]+", "^AWS::"]
 
 
 class G:
-    def __init__(self, seed):
+    def __init__(self, seed, core=False):
         self.r = random.Random(seed)
+        self.core = core      # restrict to the documented core fragment (C01)
 
     def ch(self, xs):
         return xs[self.r.randrange(len(xs))]
@@ -161,7 +162,7 @@ class G:
                     v = v[0] if v else None
                     known = bool(v is not None)
                 elif r < 0.7:
-                    i = self.ch([0, 0, 1, 2, -1])
+                    i = self.ch([0, 0, 1, 2] if self.core else [0, 0, 1, 2, -1])
                     parts.append(self.ch(["[%d]" % i, ".%d" % abs(i)]))
                     if 0 <= abs(i) < len(v):
                         v = v[abs(i)]
@@ -221,6 +222,8 @@ class G:
             return "%s%s%s %s%s%s" % (neg, some, q, opnot, self.kw(op), msg)
         op = self.ch(self.BINARY)
         r = self.r.random()
+        if self.core:
+            r = r * 0.7
         if r < 0.7:
             if op in ("in", "not in") and self.p(0.6):
                 base = sample if not isinstance(sample, (list, dict)) else None
@@ -297,15 +300,17 @@ class G:
     def lets(self, cur, vars_, n):
         out = []
         new = list(vars_)
+        used = set()
         for _ in range(n):
-            name = self.ch(["v", "w", "x", "res", "sel"])
+            name = self.ch([x for x in ["v", "w", "x", "res", "sel"] if x not in used or not self.core])
+            used.add(name)
             r = self.r.random()
             eq = self.ch(["=", ":="])
             if r < 0.35:
                 v = self.scalar() if self.p(0.7) else self.value(1)
                 out.append("let %s %s %s" % (name, eq, self.lit_of(v)))
                 new.append((name, v))
-            elif r < 0.85:
+            elif r < 0.85 or self.core:
                 q, sample = self.walk(cur, vars_, 1)
                 some = "some " if self.p(0.1) else ""
                 out.append("let %s %s %s%s" % (name, eq, some, q))
@@ -329,7 +334,7 @@ class G:
         if self.p(0.15) and nrules > 1:
             names[1] = names[0]          # several definitions of one name
         prules = []
-        if self.p(0.2):
+        if self.p(0.2) and not self.core:
             arity = self.ch([1, 1, 2])
             params = ["p", "q"][:arity]
             pvars = vars_ + [(p, None) for p in params]
@@ -338,12 +343,12 @@ class G:
             prules.append(("chk", arity))
         for i, name in enumerate(names):
             others = [n for n in set(names) if n != name]
-            if self.p(0.03):
+            if self.p(0.03) and not self.core:
                 others.append(name)       # self reference (cycle -> error)
             cond = ""
             if self.p(0.25):
                 cond = " %s %s" % (self.kw("when"), self.cnf(doc, vars_, 0, inline=True, maxlines=2, rules=others, prules=prules, conds=True))
-            if cfn and self.p(0.5):
+            if cfn and self.p(0.5) and not self.core:
                 t = self.ch(["AWS::S3::Bucket", "AWS::EC2::Volume", "Custom::Thing"])
                 sample = {"Type": t, "Properties": {"Size": 1, "Name": "a"}}
                 for rv in (doc.get("Resources") or {}).values() if isinstance(doc.get("Resources"), dict) else []:
